@@ -186,6 +186,7 @@ structure Datastore where
 
 inductive Ev where
   | req (f : FileName)
+  | limit (n : Nat)        -- the size limit applied to the request logged just before
   | dsCreate (what : String)
   | dsRemove (what : String)
   deriving DecidableEq, Repr
@@ -254,7 +255,7 @@ def Root.keysIter (r : Root) (ty : RoleType) : List KeyId :=
   | none => []
   | some rk => rk.keyids.takeWhile (fun k => r.keys.contains k)
 
-def St.req (st : St) (f : FileName) : St := { st with log := .req f :: st.log }
+def St.req (st : St) (f : FileName) (limit : Nat) : St := { st with log := .limit limit :: .req f :: st.log }
 
 /-! ### Steps 0 and 1: the root chain -/
 
@@ -284,7 +285,7 @@ def rootLoop (cfg : Config) (srv : Server) (v0 : Nat) : Nat → Root → St → 
   | fuel + 1, root, st =>
     if !(root.version < v0 + cfg.limits.maxRootUpdates) then (.error .maxUpdates, st)
     else
-      let st := st.req (.rootV (root.version + 1))
+      let st := st.req (.rootV (root.version + 1)) cfg.limits.maxRootSize
       match rootStep cfg srv root with
       | .stop => (.ok root, st)
       | .fail e => (.error e, st)
@@ -326,7 +327,7 @@ def storedBlocks {α : Type} (verifies : α → Bool) (version : α → Nat) (sl
 /-! ### Step 2: timestamp -/
 
 def loadTimestamp (cfg : Config) (srv : Server) (root : Root) (st : St) : Except Err Timestamp × St :=
-  let st := st.req .timestamp
+  let st := st.req .timestamp cfg.limits.maxTimestampSize
   match fetchFile srv .timestamp cfg.limits.maxTimestampSize none with
   | .error _ => (.error (.transport .timestamp), st)
   | .ok (.timestamp ts) =>
@@ -366,7 +367,7 @@ def loadSnapshot (cfg : Config) (srv : Server) (root : Root) (ts : Timestamp) (s
   | none => (.error (.metaMissing .timestamp), st)
   | some m =>
     let name := FileName.snapshot (versioned root.consistent m.version)
-    let st := st.req name
+    let st := st.req name (m.length.getD cfg.limits.maxSnapshotSize)
     match fetchFile srv name (m.length.getD cfg.limits.maxSnapshotSize) m.hash with
     | .error _ => (.error (.transport .snapshot), st)
     | .ok (.snapshot sn) =>
@@ -410,7 +411,7 @@ def fetchRoles (cfg : Config) (srv : Server) (snap : Snapshot) (consistent : Boo
       if visited.contains r.name then (.error .duplicateRole, st)
       else
         let name := FileName.role r.name (versioned consistent m.version)
-        let st := st.req name
+        let st := st.req name (m.length.getD cfg.limits.maxTargetsSize)
         match fetchFile srv name (m.length.getD cfg.limits.maxTargetsSize) none with
         | .error _ => (.error (.transport .targets), st)
         | .ok (.targets doc) =>
@@ -486,7 +487,7 @@ def loadTargets (cfg : Config) (srv : Server) (root : Root) (snap : Snapshot) (s
   | none => (.error (.metaMissing .timestamp), st)
   | some m =>
     let name := FileName.targets (versioned root.consistent m.version)
-    let st := st.req name
+    let st := st.req name (m.length.getD cfg.limits.maxTargetsSize)
     match fetchFile srv name (m.length.getD cfg.limits.maxTargetsSize) m.hash with
     | .error _ => (.error (.transport .targets), st)
     | .ok (.targets doc) =>
